@@ -113,6 +113,12 @@ pub fn extras() -> Vec<&'static str> {
         // cogeneration exporting in one step, on-site electricity used in another one
         "CONSUMO,ILU,ELECTRICIDAD,10,10,2\nCONSUMO,COGEN,GASNATURAL,0,0,80\nPRODUCCION,EL_COGEN,0,0,20\nPRODUCCION,EL_INSITU,2,0,0",
         "CONSUMO,ILU,ELECTRICIDAD,10,10,2\nCONSUMO,COGEN,GASNATURAL,0,40,80\nPRODUCCION,EL_COGEN,0,10,20\nPRODUCCION,EL_INSITU,6,1,0\nCONSUMO,NEPB,ELECTRICIDAD,1,1,1",
+        // a fossil boiler next to grid electricity (renewable share driven by the other carrier)
+        "0,CONSUMO,CAL,GASNATURAL,300,250,200,250\n0,CONSUMO,ILU,ELECTRICIDAD,25,25,25,25",
+        "0,CONSUMO,CAL,GASOLEO,900\n0,CONSUMO,ILU,ELECTRICIDAD,20\n1,PRODUCCION,EL_INSITU,2",
+        // inefficient cogeneration whose export is mostly absorbed by non-EPB uses, with a little PV
+        "0,CONSUMO,ILU,ELECTRICIDAD,10\n0,CONSUMO,NEPB,ELECTRICIDAD,90\n1,CONSUMO,COGEN,GASNATURAL,500\n1,PRODUCCION,EL_COGEN,100\n2,PRODUCCION,EL_INSITU,10",
+        "0,CONSUMO,ILU,ELECTRICIDAD,10,10\n0,CONSUMO,NEPB,ELECTRICIDAD,90,40\n1,CONSUMO,COGEN,GASNATURAL,500,300\n1,PRODUCCION,EL_COGEN,100,50\n2,PRODUCCION,EL_INSITU,10,20",
         // auxiliary energy as the only electricity component; a step with very little on-site production next to a large one
         "1,CONSUMO,CAL,GASNATURAL,190,150,100\n1,AUX,20,15,10",
         "CONSUMO,ILU,ELECTRICIDAD,5000,5000,5000\nPRODUCCION,EL_INSITU,20000,15,0",
